@@ -64,6 +64,10 @@ func (s logonState) Timeout(session *session, e internal.Event) (nextState sessi
 	case internal.LogonTimeout:
 		session.log.OnEvent("Timed out waiting for logon response")
 		return latentState{}
+	case internal.NeedHeartbeat:
+		// No heartbeat before the logon is complete, but the timer is one-shot: arm it again, or an initiator
+		// whose Logon is answered later than one heartbeat interval never sends a Heartbeat of its own.
+		session.stateTimer.Reset(session.HeartBtInt)
 	}
 	return s
 }
